@@ -334,6 +334,14 @@ def r_forest_validators(model, rep):
                     dup = True
     rep.ob("R-FOREST-VALIDATORS", "VariantBase.add:duplicate-id-refused", dup, site=cx.site(f.node),
            msg="" if dup else "insertion is not the insert-if-absent idiom (setdefault + raise when another variant holds the id)")
+    # ... and that refusal compares *objects*: 'another variant holds the id' means a distinct object, so the variant classes
+    # must keep identity-based comparison
+    for q_ in ("composeinfo.Variant", "treeinfo.Variant"):
+        vc = model.cls(q_)
+        bad = [n for n in ("__eq__", "__ne__", "__hash__", "__cmp__") if vc.lookup(n) is not None]
+        rep.ob("R-FOREST-VALIDATORS", "%s:identity-comparison" % q_, not bad, site=vc.module.site(vc.node),
+               msg="" if not bad else "%s defines %s: the duplicate-id refusal of add() (new != existing) then compares values, and a distinct "
+                                      "variant with an equal key is accepted in place of the registered one" % (q_, bad))
     # Variant.serialize refuses an already emitted UID
     s = model.own_method("composeinfo.Variant", "serialize")
     scx = facts.fctx(model, s)
